@@ -60,6 +60,11 @@ func C15(t Tier) int {
 			did := didtypes.NewDID([]byte("c15-did-never-created"))
 			return &didtypes.MsgDeactivateDIDRequest{Did: did, VerificationMethodId: k.vmID(did, 1), Signature: []byte{1, 2, 3}, FromAddress: a.Bech}
 		}},
+		{"did-stranger-update-fail", func(a *world.Account, pos int) sdk.Msg {
+			// an update of the populated base's DID proven only by a key that the SUBMITTED document lists (k2), not the stored one
+			doc := k.doc("D2", e.Did)
+			return &didtypes.MsgUpdateDIDRequest{Did: e.Did, Document: doc, VerificationMethodId: k.vmID(e.Did, 2), Signature: k.sign(doc, 0, 2), FromAddress: a.Bech}
+		}},
 		{"pnft-ok", func(a *world.Account, pos int) sdk.Msg {
 			return pnfttypes.NewMsgCreateDenomRequest(fmt.Sprintf("den%d%s", pos, a.Name), "S", "n", "", "", "", a.Bech, "")
 		}},
